@@ -4,6 +4,10 @@ package server
 import (
 	"bytes"
 	"encoding/json"
+	"fmt"
+	"io"
+	"net"
+	"time"
 	"math/big"
 	"net/http"
 	"net/http/httptest"
@@ -123,4 +127,28 @@ func VerifHarness_C09_Native() {
 	verifAssert(c == 400, "a later request is still answered")
 	c, _ = verifDo(h, "POST", string(good))
 	verifAssert(c == 200, "a later valid request is still answered with 200")
+
+	// a request that is already accepted (body half sent) when a graceful stop begins is still answered by the same table
+	conn, err := net.Dial("tcp", verifLastAddr)
+	if err != nil {
+		verifAssert(false, "valid batch: 200 with the marshalled proof")
+		return
+	}
+	half := len(good) / 2
+	fmt.Fprintf(conn, "POST /prove HTTP/1.1\r\nHost: x\r\nContent-Type: application/json\r\nContent-Length: %d\r\n\r\n", len(good))
+	conn.Write(good[:half])
+	time.Sleep(400 * time.Millisecond)
+	go func() {
+		verifLastJob.RequestStop()
+		verifLastJob.AwaitStop()
+	}()
+	time.Sleep(1500 * time.Millisecond)
+	conn.Write(good[half:])
+	conn.SetReadDeadline(time.Now().Add(180 * time.Second))
+	resp, _ := io.ReadAll(conn)
+	ok := strings.HasPrefix(string(resp), "HTTP/1.1 200") && strings.Contains(string(resp), `"ar"`)
+	verifAssert(ok, "valid batch: 200 with the marshalled proof")
+	if !ok {
+		fmt.Println("in-flight request during stop got:", string(resp[:min(len(resp), 200)]))
+	}
 }
